@@ -89,7 +89,7 @@ ACTIONS = ["SmpChooseGrid", "SmpChooseDens", "SmpMechSearch", "SmpMechEvalStep",
            "CholFactorStart", "CholFactorCol", "CholDraw", "CholMultiply", "IdxChoose", "IdxDrawOne", "IdxReturn", "IdxReject",
            "CapChooseCentre", "CapChooseRad", "CapChooseDraw", "CapDirectStep", "CapInner", "CapTurnTheta", "CapTurnPhi",
            "CapFinish", "BoxChooseLon", "BoxChooseLat", "BoxDrawCorner", "GenStart", "GenCall1", "GenCall2"]
-MECH = dict(XShift=0, Dedup="none", Transposed=False, FixedRadius=True)
+MECH = dict(XShift=0, Dedup="lead_last", Transposed=False, FixedRadius=True)
 
 # lattice concretisations ---------------------------------------------------------------------
 SCONC = [(1.0, 0), (0.5, -3), (4.0, 2), (2.0 ** -10, 0), (8.0, -6), (1.0, 100)]        # abscissa = (x + off) * unit
